@@ -293,7 +293,8 @@ impl ArrayImpl {
                 match c {
                     '%' => regex.push_str(".*"),
                     '_' => regex.push('.'),
-                    c => regex.push(c),
+                    // (any other character stands for itself, regex metacharacters included)
+                    c => regex.push_str(&regex::escape(c.encode_utf8(&mut [0; 4]))),
                 }
             }
             regex.push('$');
@@ -302,10 +303,33 @@ impl ArrayImpl {
         let A::String(a) = self else {
             return Err(ConvertError::NoUnaryOp("like".into(), self.type_string()));
         };
-        let regex = Regex::new(&like_to_regex(pattern)).unwrap();
+        // (`%` and `_` match line breaks as well)
+        let regex = Regex::new(&format!("(?s){}", like_to_regex(pattern))).unwrap();
         Ok(A::new_bool(clear_null(unary_op(a.as_ref(), |s| {
             regex.is_match(s)
         }))))
+    }
+
+    /// LIKE with a pattern that is not a constant: one pattern per row.
+    pub fn like_array(&self, patterns: &Self) -> Result {
+        let (A::String(_), A::String(p)) = (self, patterns) else {
+            return Err(ConvertError::NoBinaryOp(
+                "like".into(),
+                self.type_string(),
+                patterns.type_string(),
+            ));
+        };
+        let mut results = Vec::with_capacity(self.len());
+        for i in 0..self.len() {
+            results.push(match p.get(i) {
+                Some(pattern) => match self.slice(i..i + 1).like(pattern)?.get(0) {
+                    DataValue::Bool(b) => Some(b),
+                    _ => None,
+                },
+                None => None,
+            });
+        }
+        Ok(A::new_bool(results.into_iter().collect()))
     }
 
     pub fn concat(&self, other: &Self) -> Result {
